@@ -18,7 +18,7 @@
 (* "theorems" of the table that TLC checks on the specification itself.      *)
 EXTENDS EgoTypes, Json
 
-CONSTANTS Tier,      \* "q": one seeded value choice per table cell;  "t": several boundary values per cell
+CONSTANTS Tier,      \* "q": one seeded value choice per table cell;  "t": several boundary values per cell;  "inc": see Index
           Seed,      \* rotates the value choices of tier "q"
           Impl       \* "doc": x++ is x = x + 1 with the constant 1 (LANGUAGE.md);  "asis": the as-built compilation
                      \*        of x++ (adds a typed, non-constant int 1) - negative control only
@@ -96,7 +96,8 @@ AsgVV(form) == { x \in { I(form, op, l, r) : op \in AsgOps, l \in VarDs(8), r \i
 \* the increment forms written out with the constant 1, so that the three forms of the statement are all executed
 AsgOne(form) == { I(form, x.op, x.l, DC(1)) : x \in IncC }
 
-Index == BinVV \cup BinVC \cup BinCV \cup NegC \cup IncC
+Index == IF Tier = "inc" THEN IncC ELSE       \* tier "inc": the increment cells only (negative control)
+         BinVV \cup BinVC \cup BinCV \cup NegC \cup IncC
          \cup AsgVC("cas") \cup AsgVC("asg") \cup AsgVV("cas") \cup AsgVV("asg") \cup AsgOne("cas") \cup AsgOne("asg")
 Build(x) == [form |-> x.form, op |-> x.op, l |-> Opd(x.l), r |-> Opd(x.r)]
 NoCell   == [form |-> "none", op |-> "", l |-> NoOperand, r |-> NoOperand]
